@@ -103,6 +103,7 @@ class NCfg:
         self.ius = rng.choice([1, 1, 2])
         self.ops = ['f1', 's']
         self.ckpt_dir = None
+        self.inv32 = False                           # second-order data in float32, factors in float64
         for k, v in force.items():
             setattr(self, k, v)
         if self.din % 1:
@@ -191,7 +192,7 @@ def run_real(cfg, sched_seed=0):
                     factor_decay=float(cfg.decay), kl_clip=(None if cfg.kl is None else float(cfg.kl)), lr=float(cfg.lr),
                     allreduce_bucket_cap_mb=cfg.cap_mb, compute_eigenvalue_outer_product=cfg.prediv,
                     symmetry_aware=cfg.sym, data_parallel_group=groups['data'], model_parallel_group=groups['model'],
-                    pipeline_parallel_group=groups['pipe'], inv_dtype=DT, factor_checkpoint_dir=cfg.ckpt_dir)
+                    pipeline_parallel_group=groups['pipe'], inv_dtype=(torch.float32 if getattr(cfg, 'inv32', False) else DT), factor_checkpoint_dir=cfg.ckpt_dir)
         p = mk()
         layers = [m for m in mods if isinstance(m, torch.nn.Linear)]
         names = [n for n, _ in p._layers.values()]
